@@ -25,6 +25,9 @@ def stopping_plan(prop, ctx, with_t3=False, with_x=True):
         P.append(sweep.family_shards(prop, "U-F", j, max_deg=2, focus_reward=2))
         if with_t3:
             P.append(sweep.universe_shards(prop, "U-T3", j, rewards="all01", stopping_only=True, frac=16, seed=ctx.seed))
+    # medium-size irregular games (7 and 8 states): arithmetic progressions through the whole universe
+    P.append(sweep.universe_shards(prop, "U-S5r", j, rewards="pat3", stopping_only=True, stride=50021 if ctx.thorough else 1000003, seed=ctx.seed))
+    P.append(sweep.universe_shards(prop, "U-S6r", j, rewards="pat3", stopping_only=True, stride=20000003 if ctx.thorough else 400000009, seed=ctx.seed))
     P.append(sweep.family_shards(prop, "U-D", j))
     if with_t3:
         P.append(sweep.family_shards(prop, "U-M2", 1000))        # C06 only
@@ -50,7 +53,19 @@ def stopping_plan(prop, ctx, with_t3=False, with_x=True):
         P.append(sweep.family_shards(prop, "U-G", j, stride=6, offset=ctx.seed))
     if with_x:
         P.append(sweep.family_shards(prop, "U-X", j))
+    P.extend(debug_log_parts(prop, ctx))
     return P
+
+
+def debug_log_parts(prop, ctx):
+    """configurations and histories rather than inputs: all ordered pairs of the family U-PAIR (G1 solved, then G2 solved and judged in the
+    same, otherwise fresh process), and the same judges with every solve executed at the DEBUG log level (the tool's -l d)"""
+    j = ctx.jobs
+    return [sweep.pair_shards(prop, j, stride=1 if ctx.thorough else 2, offset=ctx.seed),
+            sweep.family_shards(prop, "U-F", j, max_deg=3 if ctx.thorough else 2, focus_reward=1, debug_log=True),
+            sweep.universe_shards(prop, "U-S2d2", j, rewards="ones", stopping_only=False, frac=None if ctx.thorough else 8, seed=ctx.seed, debug_log=True),
+            sweep.family_shards(prop, "U-E", j, debug_log=True, stride=1 if ctx.thorough else 4, offset=ctx.seed),
+            sweep.family_shards(prop, "U-X", j, debug_log=True)]
 
 
 def all_games_plan(prop, ctx, thresholds=False):
@@ -72,6 +87,8 @@ def all_games_plan(prop, ctx, thresholds=False):
         P.append(sweep.universe_shards(prop, "U-S3", j, frac=64, seed=ctx.seed))
         P.append(sweep.universe_shards(prop, "U-T4r", j, frac=512, seed=ctx.seed))
         P.append(sweep.family_shards(prop, "U-F", j, max_deg=3))
+    P.append(sweep.universe_shards(prop, "U-S5r", j, stride=50021 if ctx.thorough else 1000003, seed=ctx.seed))
+    P.append(sweep.universe_shards(prop, "U-S6r", j, stride=20000003 if ctx.thorough else 400000009, seed=ctx.seed))
     P.append(sweep.family_shards(prop, "U-D", j))
     P.append(sweep.family_shards(prop, "U-E", j))
     P.append(sweep.family_shards(prop, "U-K", j))
@@ -91,4 +108,5 @@ def all_games_plan(prop, ctx, thresholds=False):
         P.append(sweep.family_shards(prop, "U-C", j, stride=4, offset=ctx.seed))
         P.append(sweep.family_shards(prop, "U-G", j, stride=6, offset=ctx.seed))
     P.append(sweep.family_shards(prop, "U-X", j))
+    P.extend(debug_log_parts(prop, ctx))
     return P
